@@ -6,7 +6,7 @@ from typing import Any, Callable, Optional
 
 from ...code_tools.cascade_namespace import BuiltinCascadeNamespace, CascadeNamespace
 from ...code_tools.code_builder import CodeBuilder
-from ...code_tools.utils import get_literal_expr, get_literal_from_factory
+from ...code_tools.utils import get_literal_expr, get_literal_from_factory, get_var_suffix, is_plain_identifier
 from ...common import Loader
 from ...compat import CompatExceptionGroup
 from ...definitions import DebugTrail
@@ -129,13 +129,13 @@ class GenState(Namer):
         return Namer(self.debug_trail, self.path_to_suffix, self.parent_path)
 
     def v_field_loader(self, field_id: str) -> str:
-        return f"loader_{field_id}"
+        return f"loader_{get_var_suffix(field_id)}"
 
     def v_raw_field(self, field: InputField) -> str:
-        return f"r_{field.id}"
+        return f"r_{get_var_suffix(field.id)}"
 
     def v_field(self, field: InputField) -> str:
-        return f"f_{field.id}"
+        return f"f_{get_var_suffix(field.id)}"
 
     @property
     def parent_path(self) -> CrownPath:
@@ -328,7 +328,10 @@ class BuiltinModelLoaderGen(ModelLoaderGen):
 
                 value = state.v_field(field)
                 if param.kind == ParamKind.KW_ONLY or has_skipped_params:
-                    constructor_builder(f"{param.name}={value},")
+                    if is_plain_identifier(param.name):
+                        constructor_builder(f"{param.name}={value},")
+                    else:
+                        constructor_builder(f"**{{{param.name!r}: {value}}},")
                 elif param.kind == ParamKind.POS_ONLY and has_skipped_params:
                     raise ValueError(
                         "Can not generate consistent constructor call,"
@@ -609,14 +612,14 @@ class BuiltinModelLoaderGen(ModelLoaderGen):
             literal_expr = get_literal_expr(field.default.value)
             if literal_expr is not None:
                 return literal_expr
-            state.namespace.add_constant(f"dfl_{field.id}", field.default.value)
-            return f"dfl_{field.id}"
+            state.namespace.add_constant(f"dfl_{get_var_suffix(field.id)}", field.default.value)
+            return f"dfl_{get_var_suffix(field.id)}"
         if isinstance(field.default, DefaultFactory):
             literal_expr = get_literal_from_factory(field.default.factory)
             if literal_expr is not None:
                 return literal_expr
-            state.namespace.add_constant(f"dfl_{field.id}", field.default.factory)
-            return f"dfl_{field.id}()"
+            state.namespace.add_constant(f"dfl_{get_var_suffix(field.id)}", field.default.factory)
+            return f"dfl_{get_var_suffix(field.id)}()"
         raise ValueError
 
     def _gen_field_crown(self, state: GenState, crown: InpFieldCrown):
